@@ -124,7 +124,8 @@ theorem stepN_inv_own {s : St} (h : Inv s) {j : Nat} {n : Notifier} (hj : s.ntf[
       · simp only [hwe, if_true]
         refine inv_notifier_own h hj s.lock (s.epoch + 1) s.conds (Or.inl ⟨rfl, by rw [hpc]; rfl⟩) rfl rfl
           (hnl _ (Or.inl rfl) (by simp) (by simp)) (Or.inl rfl)
-          (dek_mono h hj (pending_lose rfl rfl (Or.inl ⟨rfl, fun _ => List.isEmpty_iff.mp hwe, (fun c e => by rw [hkind] at e; cases e)⟩)))
+          (dek_mono h hj (pending_lose rfl rfl (Or.inl ⟨rfl, fun _ => List.isEmpty_iff.mp hwe, (fun c e => by rw [hkind] at e; cases e),
+            (fun c e => by rw [hkind] at e; cases e)⟩)))
       · simp only [hwe]
         refine inv_notifier_own h hj s.lock (s.epoch + 1) s.conds (Or.inl ⟨rfl, by rw [hpc]; rfl⟩) rfl rfl
           (hnl _ (Or.inr (Or.inl rfl)) (fun _ => Or.inl hkind) (by simp)) (Or.inl rfl)
@@ -135,7 +136,8 @@ theorem stepN_inv_own {s : St} (h : Inv s) {j : Nat} {n : Notifier} (hj : s.ntf[
       · simp only [hwe, if_true]
         refine inv_notifier_own h hj s.lock (s.epoch + 1) s.conds (Or.inl ⟨rfl, by rw [hpc]; rfl⟩) rfl rfl
           (hnl _ (Or.inl rfl) (by simp) (by simp)) (Or.inl rfl)
-          (dek_mono h hj (pending_lose rfl rfl (Or.inl ⟨rfl, fun _ => List.isEmpty_iff.mp hwe, (fun c e => by rw [hkind] at e; cases e)⟩)))
+          (dek_mono h hj (pending_lose rfl rfl (Or.inl ⟨rfl, fun _ => List.isEmpty_iff.mp hwe, (fun c e => by rw [hkind] at e; cases e),
+            (fun c e => by rw [hkind] at e; cases e)⟩)))
       · simp only [hwe]
         refine inv_notifier_own h hj s.lock (s.epoch + 1) s.conds (Or.inl ⟨rfl, by rw [hpc]; rfl⟩) rfl rfl
           (hnl _ (Or.inr (Or.inl rfl)) (fun _ => Or.inr hkind) (by simp)) (Or.inl rfl)
@@ -148,12 +150,26 @@ theorem stepN_inv_own {s : St} (h : Inv s) {j : Nat} {n : Notifier} (hj : s.ntf[
         refine inv_notifier_own h hj s.lock (s.epoch + 1) s.conds (Or.inl ⟨rfl, by rw [hpc]; rfl⟩) rfl rfl
           (hnl _ (Or.inl rfl) (by simp) (by simp)) (Or.inl rfl)
           (dek_mono h hj (pending_lose rfl rfl (Or.inl ⟨rfl, (fun e => by rw [hkind] at e; rcases e with e | e <;> cases e),
-            (fun c' e => by rw [hkind] at e; cases e; exact hsp)⟩)))
+            (fun c' e => by rw [hkind] at e; cases e; exact hsp), (fun c' e => by rw [hkind] at e; cases e)⟩)))
       | some x =>
         simp only [Option.isSome_some, if_true]
         refine inv_notifier_own h hj s.lock (s.epoch + 1) s.conds (Or.inl ⟨rfl, by rw [hpc]; rfl⟩) rfl rfl
           (hnl _ (Or.inr (Or.inr rfl)) (by simp) (fun _ => by rw [hkind]; simp)) (Or.inl rfl)
-          (dek_mono h hj (pending_lose rfl rfl (Or.inr (Or.inr (Or.inr ⟨Or.inl rfl, c, hkind⟩)))))
+          (dek_mono h hj (pending_lose rfl rfl (Or.inr (Or.inr (Or.inr (Or.inl ⟨Or.inl rfl, c, hkind⟩))))))
+    | onec c =>
+      simp only [afterEpoch, hscan]
+      cases hsp : scanPick s (.onec c) with
+      | none =>
+        simp only [Option.isSome_none, Bool.false_eq_true, if_false]
+        refine inv_notifier_own h hj s.lock (s.epoch + 1) s.conds (Or.inl ⟨rfl, by rw [hpc]; rfl⟩) rfl rfl
+          (hnl _ (Or.inl rfl) (by simp) (by simp)) (Or.inl rfl)
+          (dek_mono h hj (pending_lose rfl rfl (Or.inl ⟨rfl, (fun e => by rw [hkind] at e; rcases e with e | e <;> cases e),
+            (fun c' e => by rw [hkind] at e; cases e), (fun c' e => by rw [hkind] at e; cases e; exact hsp)⟩)))
+      | some x =>
+        simp only [Option.isSome_some, if_true]
+        refine inv_notifier_own h hj s.lock (s.epoch + 1) s.conds (Or.inl ⟨rfl, by rw [hpc]; rfl⟩) rfl rfl
+          (hnl _ (Or.inr (Or.inr rfl)) (by simp) (fun _ => by rw [hkind]; simp)) (Or.inl rfl)
+          (dek_mono h hj (pending_lose rfl rfl (Or.inr (Or.inr (Or.inr (Or.inr ⟨rfl, c, hkind⟩))))))
     | one =>
       simp only [afterEpoch, hscan]
       have hnp : ∀ c x, pendingFor n c x = true → False := by
@@ -216,6 +232,29 @@ theorem pendingFor_mark_false {n : Notifier} (hpc : n.pc = .mark) (hk : n.kind =
     rcases hk with hk | hk <;> subst hk <;> simp [hpc]
   · rfl
 
+theorem pendingFor_mark_false_onec {n : Notifier} (hpc : n.pc = .mark) {c0 : Nat} (hk : n.kind = .onec c0) {c x : Nat} :
+    pendingFor n c x = false := by
+  unfold pendingFor
+  split
+  · rename_i c' k r rest heq
+    have : n.kind = k := by simp [Notifier.kind, heq]
+    rw [this] at hk; subst hk; simp [hpc]
+  · rfl
+
+/-- a pending `notify_one(pred)`: its predicate is `context == x` and it is the head of the notifier's program -/
+theorem pendingFor_onec_inv {n : Notifier} {c0 : Nat} (hk : n.kind = .onec c0) {c x : Nat} (hp : pendingFor n c x = true) :
+    x = c0 ∧ ∃ r rest, n.ops = .sig (some c) (.onec c0) r :: rest := by
+  unfold pendingFor at hp
+  split at hp
+  · rename_i c' k r rest heq
+    have hk' : n.kind = k := by simp [Notifier.kind, heq]
+    rw [hk] at hk'; subst hk'
+    simp only [Bool.and_eq_true, beq_iff_eq] at hp
+    obtain ⟨⟨hc, hacc⟩, _⟩ := hp
+    subst hc
+    exact ⟨accepts_onec hacc, r, rest, heq⟩
+  · cases hp
+
 theorem nodup_count {l : List Nat} (h : l.Nodup) (k : Nat) : l.count k = if k ∈ l then 1 else 0 := h.count
 
 /-- nobody but the lock holder is inside a critical section -/
@@ -238,7 +277,7 @@ theorem stepN_inv_flush {s : St} (h : Inv s) {j : Nat} {n : Notifier} (hj : s.nt
   have hkind := hfl hpc
   unfold stepN
   simp only [hemp, Bool.false_eq_true, if_false, hpc]
-  refine inv_notifier_gen h hj [] 0 s.slp rfl (fun k sl' hk => ⟨sl', hk, rfl, rfl⟩) ?_ (by simp) rfl ?_ (Or.inl rfl) ?_ ?_
+  refine inv_notifier_gen h hj [] 0 s.slp rfl (fun k sl' hk => ⟨sl', hk, rfl, rfl⟩) ?_ (by simp) rfl (by simp) ?_ (Or.inl rfl) ?_ ?_
   · rw [hpc]; cases s.waitset <;> rfl
   · -- NLoc
     refine ⟨by simp, ?_, ?_, ?_, fun e => absurd e hne, ?_, ?_, ?_⟩
@@ -292,8 +331,9 @@ theorem stepN_inv_scan {s : St} (h : Inv s) {j : Nat} {n : Notifier} (hj : s.ntf
     simp only
     refine inv_notifier_own h hj s.lock s.epoch s.conds (Or.inl ⟨rfl, by rw [hpc]; rfl⟩) rfl rfl ?_ (Or.inl rfl) ?_
     · refine ⟨hm, fun e => absurd hunm e, ?_, ?_, fun e => absurd e hne, ?_, ?_, ?_⟩ <;> (intro e; simp at e)
-    · refine dek_mono h hj (pending_lose rfl rfl (Or.inl ⟨rfl, ?_, ?_⟩))
+    · refine dek_mono h hj (pending_lose rfl rfl (Or.inl ⟨rfl, ?_, ?_, ?_⟩))
       · intro hk'; have := hsc hpc; rcases hk' with hk' | hk' <;> simp [hk'] at this
+      · intro c hk'; rw [hk'] at hsp; exact hsp
       · intro c hk'; rw [hk'] at hsp; exact hsp
   | some x =>
     simp only
@@ -302,7 +342,8 @@ theorem stepN_inv_scan {s : St} (h : Inv s) {j : Nat} {n : Notifier} (hj : s.ntf
     have hdrop : ({ n with temp := n.temp ++ [x], pc := NPc.mark } : Notifier).unm = [x] := by
       simp [Notifier.unm, hmk]
     refine inv_notifier_gen h hj (s.waitset.erase x) (s.count - 1) s.slp rfl (fun k sl' hk => ⟨sl', hk, rfl, rfl⟩)
-      (by rw [hpc]; rfl) (h.nodup.erase x) (by rw [List.length_erase_of_mem hxW, h.cnt]) ?_ (Or.inl rfl) ?_ ?_
+      (by rw [hpc]; rfl) (h.nodup.erase x) (by rw [List.length_erase_of_mem hxW, h.cnt])
+      (fun y hy => List.mem_of_mem_erase hy) ?_ (Or.inl rfl) ?_ ?_
     · refine ⟨by simp; omega, fun _ => rfl, ?_, ?_, fun e => absurd e hne, ?_, ?_, ?_⟩
       · intro e; simp at e
       · intro _; exact ⟨by simp; omega, Or.inr (Or.inr (by simp; omega))⟩
@@ -329,15 +370,44 @@ theorem stepN_inv_scan {s : St} (h : Inv s) {j : Nat} {n : Notifier} (hj : s.ntf
     · intro i sl hi hp hc
       rcases h.dek i sl hi hp hc with hW | hpd
       · exact Or.inl (fun hm' => hW (List.mem_of_mem_erase hm'))
-      · refine Or.inr (exists_pending_setN hj ?_ hpd)
-        intro hp'
-        cases hkd : n.kind with
+      · cases hkd : n.kind with
         | all => exact absurd hkd hkind.1
         | abort => exact absurd hkd hkind.2
-        | one => rw [pendingFor_kind_one hkd] at hp'; cases hp'
+        | one =>
+          refine Or.inr (exists_pending_setN hj ?_ hpd)
+          intro hp'; rw [pendingFor_kind_one hkd] at hp'; cases hp'
         | ctx c =>
+          refine Or.inr (exists_pending_setN hj ?_ hpd)
+          intro hp'
           exact pending_keep (n := n) (n' := { n with temp := n.temp ++ [x], pc := NPc.mark }) rfl rfl
-            (Or.inr (Or.inr ⟨Or.inr rfl, c, hkd⟩)) _ _ hp'
+            (Or.inr (Or.inr (Or.inl ⟨Or.inr rfl, c, hkd⟩))) _ _ hp'
+        | onec c0 =>
+          -- notify_one(pred) stops after this node: by `Uniq` it is the only waiter with that context
+          obtain ⟨j', m, hm, hpm⟩ := hpd
+          by_cases e : j = j'
+          · subst e; rw [hj] at hm; cases hm
+            left
+            obtain ⟨hctx, r, rest, hops⟩ := pendingFor_onec_inv hkd hpm
+            rw [hkd] at hsp
+            have hcx : s.ctxOf x = c0 := scanPick_onec_ctx hsp
+            obtain ⟨slx, hslx⟩ := h.wsv x hxW
+            have hslne : sl.ops ≠ [] := by
+              intro e0; have := h.opsS i sl hi e0; rcases hp with hp | hp <;> rw [this] at hp <;> cases hp
+            have hxne : slx.ops ≠ [] := by
+              intro e0
+              have hi0 := h.opsS x slx hslx e0
+              have hS := h.slp x slx hslx
+              simp only [SLoc, hi0] at hS
+              exact hS.1 hxW
+            obtain ⟨w, wr, hw⟩ := List.exists_cons_of_ne_nil hslne
+            obtain ⟨wx, wxr, hwx⟩ := List.exists_cons_of_ne_nil hxne
+            have h1 : w.ctx = c0 := by rw [← hctx]; simp [Sleeper.ctx, hw]
+            have h2 : wx.ctx = c0 := by rw [← hcx]; simp [St.ctxOf, hslx, Sleeper.ctx, hwx]
+            have hix : i = x := h.uniq j n hj sl.cond c0 r (by rw [hops]; simp) i x sl slx hi hslx
+              w (by rw [hw]; simp) wx (by rw [hwx]; simp) (by simp [Sleeper.cond, hw]) h1 h2
+            subst hix
+            simp [h.nodup.mem_erase_iff]
+          · exact Or.inr ⟨j', m, by rw [getN_setN' hj]; simp [e]; exact hm, hpm⟩
 
 /-! ### writing to a node: `modS` -/
 
@@ -409,7 +479,7 @@ theorem stepN_inv_mark {s : St} (h : Inv s) {j : Nat} {n : Notifier} (hj : s.ntf
   -- the next program counter, by kind
   have hnxt : (afterMark s n = .mark ∧ n.marked + 1 < n.temp.length ∧ (n.kind = .all ∨ n.kind = .abort)) ∨
       (afterMark s n = .unlock ∧ n.temp.length ≤ n.marked + 1 ∧
-        ((n.kind = .all ∨ n.kind = .abort ∨ n.kind = .one) ∨ ∃ c, n.kind = .ctx c ∧ scanPick s (.ctx c) = none)) ∨
+        ((n.kind = .all ∨ n.kind = .abort ∨ n.kind = .one ∨ ∃ c, n.kind = .onec c) ∨ ∃ c, n.kind = .ctx c ∧ scanPick s (.ctx c) = none)) ∨
       (afterMark s n = .scan ∧ n.temp.length ≤ n.marked + 1 ∧ ∃ c, n.kind = .ctx c) := by
     unfold afterMark
     cases hkd : n.kind with
@@ -430,6 +500,13 @@ theorem stepN_inv_mark {s : St} (h : Inv s) {j : Nat} {n : Notifier} (hj : s.ntf
         · rw [hkd] at h1; cases h1
         · exact h1
       simp [this]
+    | onec c =>
+      have : n.temp.length ≤ n.marked + 1 := by
+        rcases hkk with h1 | h1 | h1
+        · rw [hkd] at h1; cases h1
+        · rw [hkd] at h1; cases h1
+        · exact h1
+      simp [this]
     | ctx c =>
       have : n.temp.length ≤ n.marked + 1 := by
         rcases hkk with h1 | h1 | h1
@@ -441,7 +518,7 @@ theorem stepN_inv_mark {s : St} (h : Inv s) {j : Nat} {n : Notifier} (hj : s.ntf
       | none => simp [this, hsp]
       | some y => simp [this]
   generalize afterMark s n = nxt at hnxt
-  refine inv_notifier_gen h hj s.waitset s.count (modS s x f).slp (modS_len s x f) ?_ ?_ h.nodup h.cnt ?_ (Or.inl rfl) ?_ ?_
+  refine inv_notifier_gen h hj s.waitset s.count (modS s x f).slp (modS_len s x f) ?_ ?_ h.nodup h.cnt (fun _ hy => hy) ?_ (Or.inl rfl) ?_ ?_
   · intro k sl' hk'
     rcases modS_get_cases hk' with ⟨e, sl, h1, h2⟩ | ⟨_, h1⟩
     · subst e; exact ⟨sl, h1, by rw [h2], by rw [h2]⟩
@@ -495,15 +572,17 @@ theorem stepN_inv_mark {s : St} (h : Inv s) {j : Nat} {n : Notifier} (hj : s.ntf
       intro c x hp'
       rcases hnxt with ⟨_, _, hka⟩ | ⟨e, _, hka | ⟨c0, hc0, hsp⟩⟩ | ⟨e, _, c0, hc0⟩
       · rw [pendingFor_mark_false hpc hka] at hp'; cases hp'
-      · rcases hka with hka | hka | hka
+      · rcases hka with hka | hka | hka | ⟨c1, hka⟩
         · rw [pendingFor_mark_false hpc (Or.inl hka)] at hp'; cases hp'
         · rw [pendingFor_mark_false hpc (Or.inr hka)] at hp'; cases hp'
         · rw [pendingFor_kind_one hka] at hp'; cases hp'
+        · rw [pendingFor_mark_false_onec hpc hka] at hp'; cases hp'
       · exact pending_lose (n := n) (n' := { n with marked := n.marked + 1, pc := nxt }) rfl rfl (Or.inl ⟨e,
           (fun hka => by rcases hka with hka | hka <;> rw [hc0] at hka <;> cases hka),
-          (fun c' hc' => by rw [hc0] at hc'; cases hc'; exact hsp)⟩) c x hp'
+          (fun c' hc' => by rw [hc0] at hc'; cases hc'; exact hsp),
+          (fun c' hc' => by rw [hc0] at hc'; cases hc')⟩) c x hp'
       · exact Or.inl (pending_keep (n := n) (n' := { n with marked := n.marked + 1, pc := nxt }) rfl rfl
-          (Or.inr (Or.inr ⟨Or.inl e, c0, hc0⟩)) c x hp')
+          (Or.inr (Or.inr (Or.inl ⟨Or.inl e, c0, hc0⟩))) c x hp')
     rcases modS_get_cases hi with ⟨e, sl, h1, h2⟩ | ⟨e, h1⟩
     · subst e; subst h2
       exact dek_mono h hj hmono i sl h1 hp hc
@@ -541,7 +620,7 @@ theorem stepN_inv_v {s : St} (h : Inv s) {j : Nat} {n : Notifier} (hj : s.ntf[j]
       · simp [Notifier.unm, hmk, htemp]
     show Inv ((modS s x g).setN j n')
     rw [modS_eq s x g]
-    refine inv_notifier_gen h hj s.waitset s.count (modS s x g).slp (modS_len s x g) ?_ ?_ h.nodup h.cnt ?_ ?_ ?_ ?_
+    refine inv_notifier_gen h hj s.waitset s.count (modS s x g).slp (modS_len s x g) ?_ ?_ h.nodup h.cnt (fun _ hy => hy) ?_ ?_ ?_ ?_
     · intro k sl' hk'
       rcases modS_get_cases hk' with ⟨e, sl, h1, h2⟩ | ⟨_, h1⟩
       · subst e; exact ⟨sl, h1, by rw [h2], by rw [h2]⟩
